@@ -6,6 +6,7 @@ import (
 	"errors"
 	"fmt"
 	"io"
+	"strconv"
 	"strings"
 	"testing"
 
@@ -133,6 +134,11 @@ type c10Case struct {
 	// keeps sending: one message flushed, a second one written (with ManualFlush it stays in the writer) - then it
 	// receives. The receive must report the handler's error whatever is still sitting unsent in the writer.
 	Early bool
+	// RpcName (shape 4): the name the server does not know - any string a client cares to send. The text of the
+	// dispatcher's failure is fixed by the documentation of the wire error ("unknown rpc: " + the quoted name), not
+	// asked from the mux itself (which an earlier version did: a dispatcher that mangles the name was then
+	// compared with itself).
+	RpcName []byte
 }
 
 func genC10(t *rapid.T) c10Case {
@@ -142,6 +148,12 @@ func genC10(t *rapid.T) c10Case {
 		c.Err = &e
 	}
 	c.Both = rapid.Bool().Draw(t, "both")
+	if c.Shape == 4 {
+		c.RpcName = rapid.OneOf(
+			rapid.SampledFrom([][]byte{[]byte("/svc/Nope"), []byte("/svc/Progress100%"), []byte("/a%sb%d"), []byte("%!d(MISSING)"), []byte("/svc/Unary "), []byte("/ünï/\"q\""), {0xff, '%', 'v', 0}}),
+			rapid.SliceOfN(rapid.SampledFrom([]byte{'%', 's', 'd', 'v', '/', 'a', '"', '\\', 0, 0xc3, ' '}), 1, 12),
+		).Draw(t, "rpcname")
+	}
 	c.Choices = genChoices(t, 120)
 	c.ReqSize = rapid.SampledFrom([]int{0, 0, 30, 300}).Draw(t, "reqsize")
 	if c.Shape == 3 && c.Err != nil && rapid.Bool().Draw(t, "early") {
@@ -192,6 +204,12 @@ func runC10(c c10Case) (r pbt.Result) {
 		r.Detail = fmt.Sprintf("case shape=%d k=%d err=%+v\n", c.Shape, c.K, c.Err) + w.Dump()
 	}
 	rpc := []string{"/svc/Unary", "/svc/ServerStream", "/svc/ClientStream", "/svc/Bidi", "/svc/Nope", "/svc/Unary"}[c.Shape]
+	if c.Shape == 4 {
+		rpc = string(c.RpcName)
+		if c.RpcName == nil || rpc == "/svc/Unary" || rpc == "/svc/ServerStream" || rpc == "/svc/ClientStream" || rpc == "/svc/Bidi" || strings.HasPrefix(rpc, "probe") {
+			rpc = "/svc/Nope"
+		}
+	}
 	req := []byte("ping")
 	if c.Shape == 5 {
 		req = append([]byte{0xEE}, "payload"...)
@@ -209,6 +227,9 @@ func runC10(c c10Case) (r pbt.Result) {
 			return
 		}
 		wantMsg, wantCode = wantErr.Error(), 0
+		if c.Shape == 4 {
+			wantMsg = "protocol error: unknown rpc: " + strconv.Quote(rpc)
+		}
 	case c.Err != nil:
 		wantErr = impl.err
 		wantMsg = impl.err.Error()
